@@ -110,6 +110,7 @@ end Verif.C09
 
 namespace Verif.C09
 open Verif.Py Verif.Tables
+open Verif.C08 (Val)
 
 theorem lookupLast_zip_none (ns : List Name) (vs : RawRec) (n : Name) (h : n ∉ ns) :
     lookupLast (ns.zip vs) n = none := by
@@ -161,6 +162,56 @@ theorem colGet_get (ns : List Name) (vs : RawRec) (hnd : ns.Nodup) (j : Nat) (hj
         | none => simp [hl] at ih'; simp [hne, ih']
         | some x => simp [hl] at ih'; simp [ih']
 
+theorem lookupLast_zip_noneV (ns : List Name) (vs : List Val) (n : Name) (h : n ∉ ns) :
+    lookupLast (ns.zip vs) n = none := by
+  induction ns generalizing vs with
+  | nil => simp [lookupLast]
+  | cons k ns ih =>
+    cases vs with
+    | nil => simp [lookupLast]
+    | cons v vs =>
+      have hk : k ≠ n := fun e => h (by simp [e])
+      have hn : n ∉ ns := fun e => h (by simp [e])
+      simp [List.zip_cons_cons, lookupLast, ih vs hn, hk]
+
+theorem colGetV_not_mem (ns : List Name) (vs : List Val) (n : Name) (h : n ∉ ns) : colGetV ns vs n = .none := by
+  simp [colGetV, lookupLast_zip_noneV ns vs n h]
+
+theorem colGetV_cons (k : Name) (ns : List Name) (v : Val) (vs : List Val) (n : Name) :
+    colGetV (k :: ns) (v :: vs) n =
+      match lookupLast (ns.zip vs) n with
+      | some x => x
+      | none => if k = n then v else .none := by
+  unfold colGetV
+  simp only [List.zip_cons_cons, lookupLast]
+  cases lookupLast (ns.zip vs) n with
+  | none => by_cases hk : k = n <;> simp [hk]
+  | some x => simp
+
+theorem colGetV_get (ns : List Name) (vs : List Val) (hnd : ns.Nodup) (j : Nat) (hj : j < ns.length)
+    (hv : j < vs.length) : colGetV ns vs ns[j] = vs[j] := by
+  induction ns generalizing vs j with
+  | nil => simp at hj
+  | cons k ns ih =>
+    cases vs with
+    | nil => simp at hv
+    | cons v vs =>
+      have hk : k ∉ ns := (List.nodup_cons.mp hnd).1
+      have hnd' : ns.Nodup := (List.nodup_cons.mp hnd).2
+      rw [colGetV_cons]
+      cases j with
+      | zero => simp [lookupLast_zip_noneV ns vs k hk]
+      | succ j =>
+        have hj' : j < ns.length := by simpa using hj
+        have hv' : j < vs.length := by simpa using hv
+        have ih' := ih vs hnd' j hj' hv'
+        have hne : k ≠ ns[j] := fun e => hk (e ▸ List.getElem_mem hj')
+        simp only [List.getElem_cons_succ]
+        unfold colGetV at ih'
+        cases hl : lookupLast (ns.zip vs) ns[j] with
+        | none => simp [hl] at ih'; simp [hne, ih']
+        | some x => simp [hl] at ih'; simp [ih']
+
 /-! ### write_database -/
 
 @[simp] theorem Files.set_same (fs : Files) (n : Name) (r : Rel) : (fs.set n r) n = r := by simp [Files.set]
@@ -171,21 +222,25 @@ theorem sourceRecords_congr (q : DbReq) (fl : List Field) (f g : Files) (n : Nam
     sourceRecords q fl f n = sourceRecords q fl g n := by
   unfold sourceRecords; rw [h]
 
+theorem sourceVals_congr (q : DbReq) (fl : List Field) (f g : Files) (n : Name) (h : f n = g n) :
+    sourceVals q fl f n = sourceVals q fl g n := by
+  unfold sourceVals sourceTyped; rw [sourceRecords_congr q fl f g n h, h]
+
 theorem writeOne_ok (now : Nat) (q : DbReq) (src dst dst' : Files) (n : Name)
     (h : writeOne now q src dst n = .ok dst') :
-    ∃ fields recs lines r', q.target.lookup n = some fields ∧
-      sourceRecords q fields (if q.inPlace then dst else src) n = .ok recs ∧
-      stage fields (recs.map (·.map toVal)) = .ok lines ∧
+    ∃ fields vals lines r', q.target.lookup n = some fields ∧
+      sourceVals q fields (if q.inPlace then dst else src) n = .ok vals ∧
+      stage fields vals = .ok lines ∧
       write now (dst n) ⟨false, q.gzip, .ok lines⟩ = .ok r' ∧ dst' = dst.set n r' := by
   unfold writeOne at h
   cases hl : q.target.lookup n with
   | none => simp [hl] at h
   | some fields =>
     simp only [hl] at h
-    cases hs : sourceRecords q fields (if q.inPlace then dst else src) n with
+    cases hs : sourceVals q fields (if q.inPlace then dst else src) n with
     | error e => simp [hs, write, bind, Except.bind] at h
     | ok recs =>
-      cases hst : stage fields (recs.map (·.map toVal)) with
+      cases hst : stage fields recs with
       | error e => simp [hs, hst, write, bind, Except.bind] at h
       | ok lines =>
         simp only [hs, hst, bind, Except.bind] at h
